@@ -186,6 +186,11 @@ func (c *Conn) Write(p []byte) (int, error) {
 		c.net.log(Event{Conn: c.id, Side: c.side, Op: "write", Data: append([]byte(nil), p...), Err: c.WriteErr.Error()})
 		return 0, &net.OpError{Op: "write", Net: "mem", Err: c.WriteErr}
 	}
+	if !c.wdl.IsZero() && !vtime.Now().Before(c.wdl) {
+		// a write deadline that has already passed (on the virtual clock): the write fails at once, nothing is sent
+		c.net.log(Event{Conn: c.id, Side: c.side, Op: "write", Data: append([]byte(nil), p...), Err: "deadline"})
+		return 0, &net.OpError{Op: "write", Net: "mem", Err: os.ErrDeadlineExceeded}
+	}
 	if c.peerClosed {
 		c.net.log(Event{Conn: c.id, Side: c.side, Op: "write", Data: append([]byte(nil), p...), Err: "EPIPE"})
 		return 0, &net.OpError{Op: "write", Net: "mem", Err: io.ErrClosedPipe}
